@@ -227,10 +227,7 @@ func propC14() *PropSpec {
 			for _, p := range [][2]string{{"xml", "VerifXMLIOFaultTruncated"}, {"css", "VerifCSSIOFaultTruncated"}, {"svg", "VerifSVGIOFaultTruncated"}, {"html", "VerifHTMLIOFaultTruncated"}} {
 				js = append(js, Job{Pkg: p[0], Fn: p[1], N: 0, Desc: "every prefix of a document using every token kind x writer failing from its first / second call"})
 			}
-			hi := 3
-			if tier != "quick" {
-				hi = 4
-			}
+			hi := 4 // both tiers: the larger bound takes under two minutes
 			js = append(js, jobsN(".", "VerifWriterWrapper", rng(0, hi), "Writer wrapper: symbolic producer chunks, underlying writer failing from its k-th call: Write or Close reports it, Close returns")...)
 			js = append(js, jobsN(".", "VerifResponseWriterFault", rng(1, hi), "ResponseWriter over an underlying writer failing from its k-th Write with 4 error kinds")...)
 			js = append(js, Job{Pkg: ".", Fn: "VerifCmdMinifierFault", N: 2, NoNative: true, Desc: "AddCmd minifier (command and temporary files modelled): 5 argument shapes x reader fault after k bytes / writer fault"})
@@ -477,7 +474,8 @@ func propC11() *PropSpec {
 		Stubs:       []string{"embedded minifiers are recording stubs producing [[payload]]"},
 		Jobs: func(tier string) []Job {
 			var js []Job
-			q := tier == "quick"
+			q := false // both tiers run the larger bounds: under a minute
+			_ = tier
 			pick := func(a, b []int) []int {
 				if q {
 					return a
